@@ -161,12 +161,18 @@ def live(sid, I, T, pattern, window_intervals=10):
     return {"id": sid, "kind": "iscp", "conn": {"pingMs": [I, T]}, "p": params(I, T), "steps": steps}
 
 
-def silent_mid(sid, I, T, k, frac, full, app):
+def silent_mid(sid, I, T, k, frac, full, app, bping=False):
     """the broker falls silent frac/4 of an interval after its k-th pong (k = 0: after the handshake); full = it answers
     nothing at all any more (the redial is then held at a gate until the broker talks again); app = an application
     request is in flight when the client gives up"""
     steps = [{"a": "stallWatch"}, {"a": "connect", "must": True}]
-    if k > 0:
+    if bping:
+        # the broker pings at the announced interval, half a phase off the client's pings, all the time - also after it has stopped
+        # answering (half dead): its pings must not count as pongs
+        steps += [{"a": "sleep", "ms": I // 2}, {"a": "bpingEvery", "ms": I, "n": k + 3 + (detect_wait(I, T) + I) // I}]
+    if k > 0 and bping:
+        steps.append({"a": "sleep", "ms": (k - 1) * I + I * frac // 4})     # by the clock: the moment must not depend on the client's pings
+    elif k > 0:
         steps.append({"a": "await", "ev": "BSendPong", "match": {"c": 1}, "n": k, "ms": k * I + 1500, "must": True})
         steps.append({"a": "sleep", "ms": I * frac // 4})
     if full:
@@ -301,6 +307,8 @@ def run():
                     for app in ([True] if quick else [False, True]):
                         scs.append(silent_mid("C15/silent/%d-%d/k%d-f%d-%s-%s" % (I, T, k, frac, "all" if full else "pong", "app" if app else "idle"),
                                               I, T, k, frac, full, app))
+        for k in ([2, 4] if quick else [2, 3, 4, 6]):
+            scs.append(silent_mid("C15/silent/%d-%d/k%d-f2-pong-bping" % (I, T, k), I, T, k, 2, False, False, bping=True))
         for k, fails in ([(1, 1)] if quick else [(0, 1), (1, 1), (1, 2), (3, 1)]):
             scs.append(dial_fail("C15/dialfail/%d-%d/k%d-f%d" % (I, T, k, fails), I, T, k, fails))
         scs.append(bping_burst("C15/bping/%d-%d/16" % (I, T), I, T, 16))
